@@ -131,8 +131,15 @@ pub fn random_deploy(rng: &mut Rng, native: Option<bool>, real_feed: bool) -> De
     for _ in 0..nv {
         let scale = *rng.pick(&[1u128, 10, 100, 1000, 1000, 100_000]);
         let price = *rng.pick(&[1u128, 2, 10, 10, 100, 1500]);
-        let b = scale * d + rng.below(1000) as u128 * if rng.chance(1, 2) { 1 } else { 0 };
-        let q = b * price + rng.below(1000) as u128 * if rng.chance(1, 2) { 1 } else { 0 };
+        let mut b = scale * d + rng.below(1000) as u128 * if rng.chance(1, 2) { 1 } else { 0 };
+        let mut q = b * price + rng.below(1000) as u128 * if rng.chance(1, 2) { 1 } else { 0 };
+        // one market in six is priced below one quote unit per base unit (a dust amount of base is then worth nothing)
+        // (both reserves have to exceed one whole unit)
+        if rng.chance(1, 5) {
+            let div = *rng.pick(&[2u128, 10, 100, 1000]);
+            if b / div <= d { b = d * div * (2 + rng.below(5) as u128) + rng.below(1000) as u128; }
+            q = b / div + rng.below(1000) as u128;
+        }
         let fee_choices = [0u128, 0, 0, d / 1000, d / 100, d / 20, 1];
         vamms.push(VammInit {
             decimals,
@@ -264,7 +271,7 @@ pub struct Profile {
     pub len: usize,
     pub w_open: u64, pub w_close: u64, pub w_deposit: u64, pub w_withdraw: u64, pub w_liq: u64,
     pub w_funding: u64, pub w_block: u64, pub w_oracle: u64, pub w_cfg: u64, pub w_malformed: u64,
-    pub w_steer_liq: u64, pub w_pause: u64, pub w_caps: u64, pub w_pcf: u64, pub w_c16: u64, pub w_band: u64, pub w_drain: u64, pub w_zeroeq: u64, pub w_reduce: u64,
+    pub w_steer_liq: u64, pub w_pause: u64, pub w_caps: u64, pub w_pcf: u64, pub w_c16: u64, pub w_band: u64, pub w_drain: u64, pub w_zeroeq: u64, pub w_reduce: u64, pub w_dust: u64,
 }
 
 impl Profile {
@@ -286,7 +293,7 @@ impl Profile {
     }
     pub fn general(len: usize) -> Profile {
         Profile { len, w_open: 36, w_close: 10, w_deposit: 4, w_withdraw: 5, w_liq: 4, w_funding: 5, w_block: 14,
-                  w_oracle: 4, w_cfg: 2, w_malformed: 5, w_steer_liq: 7, w_pause: 1, w_caps: 2, w_pcf: 0, w_c16: 0, w_band: 0, w_drain: 0, w_zeroeq: 3, w_reduce: 2 }
+                  w_oracle: 4, w_cfg: 2, w_malformed: 5, w_steer_liq: 7, w_pause: 1, w_caps: 2, w_pcf: 0, w_c16: 0, w_band: 0, w_drain: 0, w_zeroeq: 3, w_reduce: 2, w_dust: 2 }
     }
 }
 
@@ -513,6 +520,25 @@ pub fn drain_macro(tr: &mut Tracer, w: &mut World, rng: &mut Rng, v: u32) {
 }
 
 
+/// how far (as a ratio in the vAMM's decimals) closing the whole position of (v,t) moves the spot price
+pub fn whole_close_move(w: &World, v: u32, t: u32) -> Option<u128> {
+    let p = w.position(v, t)?;
+    if p.size.value.is_zero() { return None; }
+    let c = vamm_cfg(w, v);
+    let st = vamm_state(w, v);
+    let quote: Option<Uint128> = w.q(&w.addr(v), &mv::QueryMsg::OutputAmount { direction: p.direction.clone(), amount: p.size.value });
+    let quote = quote?.u128();
+    let (q, b, vd) = (st.quote_asset_reserve.u128(), st.base_asset_reserve.u128(), c.decimals.u128());
+    let (q2, b2) = if p.direction == mv::Direction::AddToAmm { (q.checked_sub(quote)?, b.checked_add(p.size.value.u128())?) }
+                   else { (q.checked_add(quote)?, b.checked_sub(p.size.value.u128())?) };
+    if b2 == 0 || b == 0 { return None; }
+    let r = q.checked_mul(vd)? / b;
+    let pz = q2.checked_mul(vd)? / b2;
+    if r == 0 { return None; }
+    let x = pz.checked_mul(vd)? / r;
+    Some(if x > vd { x - vd } else { vd - x })
+}
+
 /// the fluctuation limit for which the price after closing the whole position of (v,t) is exactly the edge of the band
 /// around the previous block's closing price (None when no integer limit hits it exactly)
 pub fn edge_limit_for_whole_close(w: &World, v: u32, t: u32) -> Option<u128> {
@@ -546,7 +572,7 @@ pub fn edge_limit_for_whole_close(w: &World, v: u32, t: u32) -> Option<u128> {
 pub fn history(tr: &mut Tracer, w: &mut World, rng: &mut Rng, p: &Profile) {
     let d = unit(w.d.decimals);
     let total = p.w_open + p.w_close + p.w_deposit + p.w_withdraw + p.w_liq + p.w_funding + p.w_block + p.w_oracle
-        + p.w_cfg + p.w_malformed + p.w_steer_liq + p.w_pause + p.w_caps + p.w_pcf + p.w_c16 + p.w_band + p.w_drain + p.w_zeroeq + p.w_reduce;
+        + p.w_cfg + p.w_malformed + p.w_steer_liq + p.w_pause + p.w_caps + p.w_pcf + p.w_c16 + p.w_band + p.w_drain + p.w_zeroeq + p.w_reduce + p.w_dust;
     for _ in 0..p.len {
         let nv = w.vamms.len() as u64;
         let v = ID_VAMM0 + rng.below(nv) as u32;
@@ -643,7 +669,13 @@ pub fn history(tr: &mut Tracer, w: &mut World, rng: &mut Rng, p: &Profile) {
             }
         } else if take(p.w_cfg) {
             let r = |rng: &mut Rng| -> u128 { *rng.pick(&[0u128, 1, d / 100, d / 20, d / 10, d / 4, d / 2, d - 1, d, d + 1]) };
-            match rng.below(9) {
+            match rng.below(10) {
+                // the owner closes a market and opens it again (with whatever open interest it carries), a trader
+                // trying to act in between
+                9 => { tr.step(w, &Op::Vamm { sender: ID_OWNER, v, m: VMsg::SetOpen(false) });
+                       if rng.chance(1, 2) { let op = mk_open(w, t, v, Side::Buy, d, d, 0); tr.step(w, &op); }
+                       if rng.chance(1, 2) { tr.step(w, &Op::Block { dt: 1 + rng.below(100), dh: 1 }); }
+                       tr.step(w, &Op::Vamm { sender: ID_OWNER, v, m: VMsg::SetOpen(true) }); }
                 // combined updates: every subset of the fields, each with its own value (a check that looks at one
                 // field must not let another through)
                 6 | 7 => { let mut o = |rng: &mut Rng| -> Option<u128> { if rng.chance(1, 2) { Some(r(rng)) } else { None } };
@@ -837,6 +869,25 @@ pub fn history(tr: &mut Tracer, w: &mut World, rng: &mut Rng, p: &Profile) {
                 let op = mk_open(w, pt, pv, side, n, d, limit);
                 tr.step(w, &op);
             }
+        } else if take(p.w_dust) {
+            // a position of a few raw units, closed at once or after somebody moved the price against it: amounts
+            // that round to nothing on one side of an exchange and not on the other
+            let free: Vec<u32> = TRADERS.iter().cloned().filter(|x| w.position(v, *x).is_none()).collect();
+            if free.is_empty() { continue; }
+            let who = free[0];
+            let side = if rng.chance(2, 3) { Side::Buy } else { Side::Sell };
+            let dust = if rng.chance(2, 3) { 1 + rng.below(3) as u128 } else { 1 + rng.below(40) as u128 };
+            let op = mk_open(w, who, v, side.clone(), dust, d, 0);
+            if !tr.step(w, &op) { continue; }
+            if rng.chance(1, 2) && free.len() > 1 {
+                let q = vamm_state(w, v).quote_asset_reserve.u128();
+                let push = q / (2 + rng.below(8) as u128);
+                if push > 0 && push < 2_000_000u128 * d {
+                    let op = mk_open(w, free[1], v, if side == Side::Buy { Side::Sell } else { Side::Buy }, push, d, 0); tr.step(w, &op);
+                }
+            }
+            if rng.chance(1, 3) { tr.step(w, &Op::Block { dt: 1 + rng.below(60), dh: 1 }); }
+            tr.step(w, &Op::Eng { sender: who, funds: 0, m: EMsg::Close { vamm: v, limit: 0 } });
         } else if take(p.w_drain) {
             drain_macro(tr, w, rng, v);
         } else if take(p.w_c16) {
@@ -850,7 +901,17 @@ pub fn history(tr: &mut Tracer, w: &mut World, rng: &mut Rng, p: &Profile) {
             let actor = *rng.pick(&others);
             tr.step(w, &Op::Block { dt: 10 + rng.below(100), dh: 1 });
             // before the liquidation: the actor reduces / increases / does nothing in this block
-            match rng.below(4) {
+            match rng.below(5) {
+                4 => {
+                    // a ClosePosition the band splits: only the configured part of the position is closed
+                    let mv_ = whole_close_move(w, v, actor).unwrap_or(0);
+                    let tight = if mv_ >= 2 { mv_ / 2 } else { d / 1000 };
+                    let plr = *rng.pick(&[d / 4, d / 2, d / 10, d * 9 / 10]);
+                    tr.step(w, &Op::Eng { sender: ID_OWNER, funds: 0, m: EMsg::UpdCfg { owner: None, ifund: None, fpool: None, init: None, maint: None, plr: Some(plr), liqfee: None } });
+                    tr.step(w, &Op::Vamm { sender: ID_OWNER, v, m: VMsg::UpdCfg { hold: None, oi: None, toll: None, spread: None, fluct: Some(tight), engine: None, ifund: None, feed: None, twap: None } });
+                    tr.step(w, &Op::Eng { sender: actor, funds: 0, m: EMsg::Close { vamm: v, limit: 0 } });
+                    tr.step(w, &Op::Vamm { sender: ID_OWNER, v, m: VMsg::UpdCfg { hold: None, oi: None, toll: None, spread: None, fluct: Some(0), engine: None, ifund: None, feed: None, twap: None } });
+                }
                 0 => { if let Some(p0) = w.position(v, actor) {
                           let side = if p0.direction == mv::Direction::AddToAmm { Side::Sell } else { Side::Buy };
                           let amt = (p0.notional.u128() / 10).max(1);
